@@ -120,6 +120,8 @@ impl AutoReloader {
                 verif_hooks::yield_at(verif_hooks::Point::AfterCreate);
             } else {
                 mutex_guard.as_mut().unwrap().clear_templates();
+                #[cfg(feature = "verif_hooks")]
+                verif_hooks::yield_at(verif_hooks::Point::AfterClear);
             }
         }
         #[cfg(feature = "verif_hooks")]
@@ -305,6 +307,8 @@ impl Notifier {
     }
 
     fn handle(&self) -> Option<Arc<Mutex<NotifierImpl>>> {
+        #[cfg(feature = "verif_hooks")]
+        verif_hooks::yield_at(verif_hooks::Point::Handle);
         match self.handle {
             NotifierImplHandle::Weak(ref weak) => weak.upgrade(),
             NotifierImplHandle::Strong(ref arc) => Some(arc.clone()),
@@ -453,6 +457,12 @@ pub mod verif_hooks {
         BeforeRemark,
         /// `request_reload`: after the reload flag was set.
         AfterSet,
+        /// `acquire_env`: after the templates were cleared (fast reload).
+        AfterClear,
+        /// every `Notifier` entry point: before the notifier's shared state is looked up
+        /// (the harness uses the first one after a failed creator call as "before the reload
+        /// is marked pending again").
+        Handle,
     }
 
     /// The type of the callback.
